@@ -413,15 +413,15 @@ type result struct {
 	detail  string
 }
 
-var probe = []byte{1, 0, 0, 0, 0x1d}
+// probe = COM_SET_OPTION(0): answered with an EOF packet, which no other command of the
+// alphabet sends as its FIRST packet (COM_FIELD_LIST sends column definitions first).
+var probe = []byte{3, 0, 0, 0, 0x1b, 0, 0}
 
 func firstByteClass(p []byte) string {
 	if len(p) == 0 {
 		return "empty_packet"
 	}
-	if p[0] == 0xff && strings.Contains(string(p), "command 29 not supported") {
-		return "probe_answer"
-	}
+
 	switch p[0] {
 	case 0x00:
 		return "ok"
@@ -475,8 +475,8 @@ func runCase(addr string, c Case) result {
 	wire := apply(s, cl.Salt, c.Muts)
 	// a probe command behind the mutated one guarantees an answer even when the mutated
 	// packet is (or has become) a command without response (STMT_CLOSE, SEND_LONG_DATA).
-	// The probe is the unsupported command 0x1d, whose ERR text ("command 29 not supported")
-	// cannot be confused with the answer to the mutated command.
+	// The probe is COM_SET_OPTION, whose EOF answer cannot be confused with the first packet
+	// of the answer to another command.
 	all := wire
 	if s.phase == "command" {
 		all = cat(wire, probe)
@@ -487,7 +487,7 @@ func runCase(addr string, c Case) result {
 		n := int(all[0]) | int(all[1])<<8 | int(all[2])<<16
 		if n >= 1 && len(all) >= 4+n && all[3] == 0 {
 			switch all[4] {
-			case 0x01, 0x18, 0x19, 0x1d: // QUIT, SEND_LONG_DATA, STMT_CLOSE: no response by protocol; 0x1d: the probe itself
+			case 0x01, 0x18, 0x19, 0x1b, 0x04: // QUIT, SEND_LONG_DATA, STMT_CLOSE: no response by protocol; SET_OPTION / FIELD_LIST may answer with an EOF themselves
 			default:
 				needsAnswer = true
 			}
@@ -569,7 +569,7 @@ func runCase(addr string, c Case) result {
 				continue
 			}
 			res.outcome = prefix + first
-			if first == "probe_answer" && needsAnswer && prefix == "" {
+			if first == "eof" && needsAnswer && prefix == "" {
 				res.bad, res.detail = "no_error_no_close", "the first packet the client received is the answer to the probe command: the mutated command got neither a response nor a close"
 			}
 			return res
@@ -618,7 +618,7 @@ func selectOne(cl *e2erig.Client) error {
 }
 
 func cleanScratch() {
-	ms, _ := filepath.Glob(filepath.Join(os.TempDir(), "c38-*"))
+	ms, _ := filepath.Glob(filepath.Join(os.TempDir(), "c38-[0-9]*"))
 	for _, m := range ms {
 		os.RemoveAll(m)
 	}
@@ -638,7 +638,6 @@ func main() {
 	r := ev.Start("C38", "exploration")
 	w := &world{}
 	w.start()
-	defer cleanScratch()
 
 	report := func(c Case, kind string, res result, extra string) {
 		site := ""
@@ -728,6 +727,7 @@ func main() {
 			report(rc, k, res, extra)
 		}
 		w.child.Close()
+		cleanScratch()
 		r.Finish()
 	}
 
@@ -807,6 +807,10 @@ func main() {
 		wg.Wait()
 	}
 	// batches, so that after a crash only a bounded number of cases has to be re-examined
+	// after this many confirmed violations the run stops (each confirmation costs 5 runs,
+	// a hang candidate 5 x 20 s): the verdict is known, the evidence says exhaustive:false
+	const maxReports = 6
+	reported := 0
 	batchSize := 2000
 	if v := os.Getenv("C38_BATCH"); v != "" {
 		fmt.Sscan(v, &batchSize)
@@ -828,6 +832,10 @@ func main() {
 		}
 		found := 0
 		for _, c := range sus {
+			if r.TimeUp() || reported >= maxReports {
+				atomic.StoreInt32(&capped, 1)
+				break
+			}
 			k, res, extra := runOne(c)
 			if k == "engine" {
 				ev.Fatalf("case %s: %s", c, extra)
@@ -843,6 +851,7 @@ func main() {
 					ev.Fatalf("case %s: verdict %s not reproducible", c, k)
 				}
 				report(c, k, res2, extra2)
+				reported++
 				found++
 				outcomes[c.Seed+"|"+k]++
 				_ = res
@@ -858,6 +867,10 @@ func main() {
 			w.child.Close()
 			w.start()
 			for _, c := range cases[from:to] {
+				if r.TimeUp() || reported >= maxReports {
+					atomic.StoreInt32(&capped, 1)
+					break
+				}
 				k, _, extra := runOne(c)
 				if k == "engine" {
 					ev.Fatalf("case %s: %s", c, extra)
@@ -876,19 +889,14 @@ func main() {
 					ev.Fatalf("case %s: verdict %s not reproducible", c, k)
 				}
 				report(c, k, res2, extra2)
+				reported++
 				w.child.Close()
 				w.start()
 			}
 		}
 	}
 	if atomic.LoadInt32(&capped) != 0 {
-		r.Capped(fmt.Sprintf("first %d of %d cases in enumeration order (all single mutations come before pairs)", done, len(cases)))
-	}
-	if os.Getenv("C38_POST") != "" {
-		for i := 0; i < 3; i++ {
-			k, res, extra := runOne(Case{Seed: "field_list", Muts: []Mut{{K: "trunc", P: 3}}})
-			fmt.Fprintf(os.Stderr, "post: verdict=%q outcome=%q alive=%v gen=%d %s\n", k, res.outcome, w.child.Alive(), w.gen, tail(extra, 300))
-		}
+		r.Capped(fmt.Sprintf("stopped (time budget, or %d violations confirmed) after %d of %d cases in enumeration order (all single mutations come before pairs)", maxReports, done, len(cases)))
 	}
 	if os.Getenv("C38_DEBUG") != "" {
 		fmt.Fprintf(os.Stderr, "child gen=%d stderr:\n%s\n", w.gen, tail(w.child.Stderr(), 1200))
@@ -908,6 +916,7 @@ func main() {
 	}
 	r.Set("rule", "seeds = 3 handshake responses (plain, with db, with plugin name + connection attributes) and one well-formed packet per command (QUERY local/backend, INIT_DB, FIELD_LIST, PING, STMT_PREPARE, STMT_EXECUTE on an open and on a closed statement, STMT_SEND_LONG_DATA, STMT_RESET, STMT_CLOSE, SET_OPTION, QUIT, two unsupported commands); mutations, enumerated completely: every truncation length, every byte replaced by each of 00 01 7f 80 fb fc fd fe ff, every 1-byte length prefix replaced by the fc/fd/fe form with an all-ones length, statement id in {1,2,2^31-1,2^32-1} (+ the closed-statement seed), header length in {0,1,n-1,n+1,n+4,2n,65535,2^24-1}, sequence id off by one / 255, and for COM_STMT_EXECUTE every parameter type code (quick: the 25 defined codes) x unsigned flag x every truncation of a plausible value; thorough adds all pairs byte x (byte|truncation|length prefix) on the STMT_EXECUTE and handshake-with-db seeds. quick = single mutations of the handshake, STMT_EXECUTE, SEND_LONG_DATA and FIELD_LIST seeds + parameter types. distinct_nontrivial = distinct (seed, client-visible outcome) pairs in which the server rejected or dropped the input (ERR packet, closed connection, waits-for-more then close), as opposed to answering OK/data")
 	r.Assume("inputs outside the enumerated mutation set are not covered (this is exhaustive over a finite set, not coverage-guided fuzzing)")
+	cleanScratch()
 	r.Assume("a hang is reported only if no packet and no close arrives within 10 s in 5 consecutive runs; a server that waits because the packet header announced more bytes than were sent is not a hang: the client half-closes and the server must close")
 	r.Finish()
 }
